@@ -88,6 +88,21 @@ def run(prop, tier):
                     r1 = P.run_sim(ps, pg, at.ProgramInstructions(start_year=s_start, alloc=pg, **({kind: kw1} if kind != "alloc" else {})) if kind != "alloc" else at.ProgramInstructions(start_year=s_start, alloc=kw1), store_results=False)
                     rid = pair(records, index, rid, dict(model=name, intervention="%s change" % kind, Y=Y), r1, r0, Y)
                     npairs += 1
+        # --- the same budget change written by an optimisation adjustment (SpendingAdjustment.update_instructions inserts the value at Y into the
+        #     allocation that already states the spending from the program start year)
+        try:
+            from atomica.optimization import SpendingAdjustment
+            import sciris as sc
+
+            for Y in (s0 + 3, s0 + 2 + dt / 2):
+                ins0 = at.ProgramInstructions(start_year=s0 + 1, alloc=pg)
+                pn = [k for k, ts_ in ins0.alloc.items() if float(ts_.get(s0 + 1)) > 0][0]
+                ins1 = sc.dcp(ins0)
+                SpendingAdjustment(pn, Y, "abs", 0.0, 1e12).update_instructions([float(ins0.alloc[pn].get(s0 + 1)) * 4 + 7], ins1)
+                rid = pair(records, index, rid, dict(model=name, intervention="spending change written by SpendingAdjustment.update_instructions", Y=Y), P.run_sim(ps, pg, ins1, store_results=False), P.run_sim(ps, pg, ins0, store_results=False), Y)
+                npairs += 1
+        except Exception as ex:
+            V.violation("C09 SpendingAdjustment.update_instructions raised %s" % type(ex).__name__, dict(model=name, error=str(ex)[:200]))
         # --- parameter scenarios: data parameters, function parameters, transfers, interactions; linear and stepped
         F = P.framework
         pops = list(ps.pop_names)
@@ -99,7 +114,14 @@ def run(prop, tier):
                 mp = m0.pops[0].get_par(p) if p in m0.pops[0].par_lookup else None
                 if mp is not None and mp._is_dynamic and not mp.pop_aggregation and not mp.derivative and F.transitions.get(p):
                     fnpars.append(p)
-        fnpars = fnpars[:1]
+        # one function parameter evaluated during the run (depends on compartments) and one evaluated beforehand (depends on databook parameters only)
+        pre = []
+        for p in F.pars.index:
+            if isinstance(F.pars.at[p, "function"], str) and p in ps.pars and p in m0.pops[0].par_lookup:
+                mp = m0.pops[0].get_par(p)
+                if not mp._is_dynamic and not mp.pop_aggregation and not mp.derivative and (F.transitions.get(p) or any(p in str(F.pars.at[q_, "function"]) for q_ in F.pars.index if F.transitions.get(q_))):
+                    pre.append(p)
+        fnpars = fnpars[:1] + pre[:1]
         for par in datapars + fnpars:
             for interp in ("linear", "previous"):
                 for Y in (s0 + 3, s0 + 2 + dt / 2):
